@@ -14,5 +14,5 @@ CONSTANTS
   InitRate = 6000
   F6Quirk = FALSE
   F7Quirk = FALSE
-INVARIANTS ErrAgree ConformCounters ConformNet ConformChains ConformLogs ExactConservation ConformTxLayer OraclesHold Conservation Mirror
+INVARIANTS ErrAgree ConformCounters ConformNet ConformChains ConformLogs ExactConservation ConformTxLayer OraclesHold Conservation Mirror ConformMods
 CHECK_DEADLOCK TRUE
